@@ -1159,7 +1159,10 @@ def c15(ctx):
     segs = split_segments(ev)
     fails = validate_segments(ctx, "TcpBridgeTrace", "TcpBridgeTrace.cfg", segs, batch=40)
     bridge_report(ctx, fails, "stream")
-    good = [s for s in segs if not any(s is f[0] for f in fails) and sum(1 for e in s if e.get("ev") == "Rd") >= 2]
+    def first_dir_rd(s):
+        fd = [e.get("d") for e in s if e.get("ev") == "PeerClose"]
+        return sum(1 for e in s if e.get("ev") == "Rd" and (not fd or e.get("d") == fd[0])) >= 2
+    good = [s for s in segs if not any(s is f[0] for f in fails) and first_dir_rd(s)]
     if good:
         def corrupt(seg):
             for e in seg:
@@ -1169,8 +1172,9 @@ def c15(ctx):
             return False
 
         def lost(seg):
+            firstd = [e.get("d") for e in seg if e.get("ev") == "PeerClose"]
             for i in range(len(seg) - 1, -1, -1):
-                if seg[i].get("ev") == "Rd":
+                if seg[i].get("ev") == "Rd" and (not firstd or seg[i].get("d") == firstd[0]):
                     del seg[i]
                     return True
             return False
